@@ -44,7 +44,7 @@ PROPS["C12"] = dict(
     technique="metamorphic testing (any read partition == one generous read) plus a reference framer, on rapid-generated streams and partitions aimed inside tags, lengths and checksums",
     stages=[dict(name="rapid", kind="rapid", run="^TestC12_Rapid$", checks=(3000, 60000), shards=(12, 16), timeout=(400, 2400)),
             dict(name="fuzz-stream", kind="fuzz", run="^FuzzC09_Stream$", thorough_only=True, fuzztime=(0, 60), timeout=(0, 400))],
-    require=["family:wellformed", "family:soup", "split-inside-tag-length-or-checksum", "message-larger-than-buffer", "two-or-more-messages"],
+    require=["family:wellformed", "family:soup", "split-inside-tag-length-or-checksum", "message-larger-than-buffer", "two-or-more-messages", "long-junk"],
     assumptions=["frames are observed through parser.ReadMessage (hook H1 wraps the unexported parser); the sequence ends at the first error, as in connection.go's readLoop",
                  "junk between messages contains no '8=' marker, per the statement"],
 )
